@@ -55,6 +55,14 @@ class RankAnalysis:
             if all(r is not None for r in rs):
                 return max(rs)
             return None
+        if isinstance(e, ast.Subscript) and isinstance(e.value, ast.Attribute) and e.value.attr == "shape":
+            # X.shape[k]  (canonical spelling of X.size(k)): k must lie within the rank of X
+            r = self.rank(e.value.value, env)
+            d = _const_int(e.slice)
+            if r is not None and d is not None:
+                self.known_sites += 1
+                self._check_dim(e, d, r, "size")
+            return 0 if not isinstance(e.slice, ast.Slice) else None
         if isinstance(e, ast.Subscript):
             r = self.rank(e.value, env)
             if r is None:
